@@ -57,10 +57,11 @@ pub fn vcf_record(cols: &[String], r: &Rec, index: usize, extra: bool) -> String
         .values()
         .flat_map(|g| g.split(|c| c == '/' || c == '|').filter_map(|a| a.parse::<u32>().ok()).collect::<Vec<_>>())
         .max()
-        .unwrap_or(1)
-        .max(1);
+        .unwrap_or(0);
     let alts = ["C", "G", "T", "AA", "AC", "AG"];
-    let alt: Vec<&str> = alts.iter().take(max_allele as usize).copied().collect();
+    // a site without any ALT allele in the calls is written with ALT "." every other time (invariant-site style)
+    let n_alt = if max_allele == 0 && index % 2 == 0 { 0 } else { max_allele.max(1) };
+    let alt: Vec<&str> = if n_alt == 0 { vec!["."] } else { alts.iter().take(n_alt as usize).copied().collect() };
     let pos = if r.bad && index % 2 == 0 { "notanumber".to_string() } else { r.pos.to_string() };
     let mut s = format!(
         "{}\t{}\t.\tA\t{}\t.\t.\t{}\t{}",
@@ -159,7 +160,14 @@ pub fn own_bcf(cols: &[String], recs: &[Rec]) -> Vec<u8> {
     let mut text = String::new();
     text.push_str("##fileformat=VCFv4.3\n");
     text.push_str("##FILTER=<ID=PASS,Description=\"All filters passed\">\n");
-    text.push_str("##contig=<ID=chr1,length=100000>\n##contig=<ID=chr2,length=100000>\n");
+    // the contig dictionary index (IDX) need not follow the order of the header lines: for half of the call
+    // sets chr1 has IDX 1 and chr2 IDX 0, and records refer to contigs by that index
+    let swap = recs.len() % 2 == 1;
+    if swap {
+        text.push_str("##contig=<ID=chr1,length=100000,IDX=1>\n##contig=<ID=chr2,length=100000,IDX=0>\n");
+    } else {
+        text.push_str("##contig=<ID=chr1,length=100000>\n##contig=<ID=chr2,length=100000>\n");
+    }
     text.push_str("##FORMAT=<ID=GT,Number=1,Type=String,Description=\"Genotype\">\n");
     text.push_str("#CHROM\tPOS\tID\tREF\tALT\tQUAL\tFILTER\tINFO\tFORMAT");
     for c in cols {
@@ -180,7 +188,7 @@ pub fn own_bcf(cols: &[String], recs: &[Rec]) -> Vec<u8> {
         let ploidy = calls.iter().map(|c| c.len()).max().unwrap_or(2).max(1);
         let alts = ["C", "G", "T", "AA", "AC", "AG"];
         let mut shared = Vec::new();
-        let chrom: i32 = if r.contig == "chr1" { 0 } else { 1 };
+        let chrom: i32 = if (r.contig == "chr1") != swap { 0 } else { 1 };
         shared.extend_from_slice(&chrom.to_le_bytes());
         shared.extend_from_slice(&((r.pos as i32) - 1).to_le_bytes());
         shared.extend_from_slice(&1i32.to_le_bytes());
